@@ -187,9 +187,16 @@ pub fn c08(ctx: &Ctx) -> i32 {
 
 pub fn c10(ctx: &Ctx) -> i32 {
     let spec = EnvSpec { check: "c10", flags: E_INVIS, env_types: ALL_TYPES.to_vec(), sessions: ctx.tier.pick(15_000, 400_000), max_steps: 20, toggle_rate: 0.05, offgrid_rate: 0.03 };
-    let out = run_env_spec(ctx, &spec);
+    let mut out = run_env_spec(ctx, &spec);
+    // the same judgements in sessions whose steps carry more instructions than the step has time units
+    let ospec = EnvSpec { check: "c10", flags: E_INVIS | E_OVERFULL, env_types: ALL_TYPES.to_vec(), sessions: ctx.tier.pick(3000, 60_000), max_steps: 15, toggle_rate: 0.05, offgrid_rate: 0.0 };
+    let oout = run_env_spec(ctx, &ospec);
+    out.violations.extend(oout.violations);
+    out.inconclusive.extend(oout.inconclusive);
+    out.distinct.merge(oout.distinct);
+    out.census.merge(&oout.census);
     let c = &out.census;
-    let inconclusive = floors(&[("submissions_checked", c.submissions_checked, 20_000), ("steps", c.steps, 2000), ("trades", c.trades, 500), ("multi_asset_sessions", c.multi_asset_sessions, 50)]);
+    let inconclusive = floors(&[("overfull_batches", c.overfull_batches, 1000), ("submissions_checked", c.submissions_checked, 20_000), ("steps", c.steps, 2000), ("trades", c.trades, 500), ("multi_asset_sessions", c.multi_asset_sessions, 50)]);
     let mut d = Distinct::new(10);
     let _ = &mut d;
     let cov = json!({
